@@ -162,9 +162,13 @@ def _stack_subject() -> tuple[str | None, str | None]:
 class Universe:
     """The four data layers for O1 plus the mutation log and the snapshots."""
 
-    def __init__(self, dataseed: str, permit: bool):
+    def __init__(self, dataseed: str, permit: bool, plain: bool = False):
         self.dataseed = dataseed
         self.permit = permit
+        # plain: the layers are built from exact builtin list / dict objects (no logging subclass), so code
+        # guarded by `type(x) is list` fast paths sees what a caller's ordinary data looks like (seed
+        # c10-10A); mutations are then found by the deep diff against the snapshot only
+        self.plain_containers = plain
         self.events: list[tuple[str, str, str, str | None, str | None]] = []
         self.layers: dict[str, Any] = {}
         rng = random.Random(dataseed)
@@ -180,6 +184,14 @@ class Universe:
             assert type(self.plain[k]) is dict
 
     def _freeze(self, o: Any, layer: str, label: str) -> Any:
+        if self.plain_containers:
+            if isinstance(o, list):
+                return [self._freeze(x, layer, label) for x in o]
+            if isinstance(o, tuple):
+                return tuple(self._freeze(x, layer, label) for x in o)
+            if type(o) is dict:
+                return {k: self._freeze(v, layer, label) for k, v in o.items()}
+            return o
         if isinstance(o, list):
             r = FrozenList(
                 self._freeze(x, layer, f"{label}[{i}]") for i, x in enumerate(o)
@@ -584,7 +596,8 @@ def _fill(tpl: str, P: str, Q: str, F: str = "") -> str:  # noqa: N803
 
 
 class O1:
-    def __init__(self, ctx: Ctx, dataseed: str, permit: bool):
+    def __init__(self, ctx: Ctx, dataseed: str, permit: bool, plain: bool = False):
+        self.plain = plain
         from liquid2 import Environment
         from liquid2.exceptions import LiquidError
         from liquid2.shopify import Environment as ShopifyEnvironment
@@ -603,7 +616,7 @@ class O1:
         self.reset()
 
     def reset(self) -> None:
-        self.U = Universe(self.dataseed, self.permit)
+        self.U = Universe(self.dataseed, self.permit, self.plain)
         self.envs: dict[str, Any] = {}
         for kind, cls in (("std", self.Environment), ("shopify", self.ShopifyEnvironment)):
             loader = self.Loader({}, {})
@@ -686,7 +699,7 @@ class O1:
             wit_base = {
                 "o": "O1", "templates": tpls, "api": api, "mode": mode, "args": style,
                 "envkind": case.get("envkind", "std"), "subject": subject,
-                "dataseed": U.dataseed, "permit": U.permit,
+                "dataseed": U.dataseed, "permit": U.permit, "plain": U.plain_containers,
                 "status": status + (f":{type(err).__name__}" if err else ""),
             }
         for layer, label, method, subj, where in events:
@@ -848,6 +861,18 @@ def _filter_cases(o1: "O1", filters: list[tuple[str, str]], tier: str, shard_i: 
                 F = fname + _fill(ARGFORMS[ai], P, Q)  # noqa: N806
                 root, parts = ACCESS["direct"]
                 yield _case(fname, _fill(root, P, Q, F), parts, pi + ai + fi, kind)
+        # (a2) quick tier: every filter x every argument form it accepts x the container shapes (flat list of
+        # numbers / strings / mixed / mappings, nested list, mapping); (a) gives each path only ONE form in the
+        # quick tier, so e.g. `objs | sort_numeric: 'k'` (string key on a flat list of mappings, seed c10-10A)
+        # was only reached by the thorough tier's full cross product
+        if tier == "quick":
+            for ai in good:
+                for ri, rel in enumerate(("objs", "nums", "strs", "mixed", "map.list_of_maps", "map.items", "nest")):
+                    P = f"{PREFIX[LAYERS[(ai + ri + fi) % len(LAYERS)]]}_{rel}"  # noqa: N806
+                    Q = PATHS[(ai * 3 + ri * 5 + fi) % npaths]  # noqa: N806
+                    F = fname + _fill(ARGFORMS[ai], P, Q)  # noqa: N806
+                    root, parts = ACCESS["direct"]
+                    yield _case(fname, _fill(root, P, Q, F), parts, ai + ri + fi, kind)
         # (b) every filter x every argument form x aliases
         for ai, form in enumerate(ARGFORMS):
             base = fi * 31 + ai * 7
@@ -979,7 +1004,10 @@ def _run_o1(spec: dict[str, Any], ctx: Ctx) -> None:
     kind = spec["kind"]
     i, n, tier, seed = spec["i"], spec["n"], spec["tier"], spec["seed"]
     permit = i % 3 == 2
-    o1 = O1(ctx, f"{seed}:data:{kind}:{i}", permit)
+    plain = bool(spec.get("plain"))
+    o1 = O1(ctx, f"{seed}:data:{kind}:{i}", permit or plain, plain)
+    if plain:
+        ctx.count("plain_container_shards")
     filters = o1.filter_names()
     if kind == "filters":
         gen = _filter_cases(o1, filters, tier, i, n)
@@ -2627,12 +2655,17 @@ def shards(tier: str, seed: int) -> list[dict[str, Any]]:  # noqa: ARG001
     nf = 9 if tier == "quick" else 24
     for i in range(nf):
         specs.append({"kind": "filters", "i": i, "n": nf})
+    # the same filter workload over exact builtin list / dict layers (deep diff only)
+    nfp = 4 if tier == "quick" else 12
+    for i in range(nfp):
+        specs.append({"kind": "filters", "i": i, "n": nfp, "plain": True})
     nt = 3 if tier == "quick" else 6
     for i in range(nt):
         specs.append({"kind": "tags", "i": i, "n": nt})
     nc = 3 if tier == "quick" else 6
     for i in range(nc):
         specs.append({"kind": "chains", "i": i, "n": nc})
+    specs.append({"kind": "chains", "i": nc, "n": nc + 1, "plain": True})
     for name in NAMES:
         for context, n in (("root", 3), ("include", 3), ("render", 3), ("macro", 3), ("extends", 2)):
             for i in range(n):
@@ -2774,7 +2807,7 @@ def replay(wit: dict[str, Any], ctx: Ctx) -> None:
             print(f"  {v['key']}: {v['what']}")
         print(f"  keys={keys}")
         return
-    o1 = O1(ctx, wit["dataseed"], bool(wit.get("permit")))
+    o1 = O1(ctx, wit["dataseed"], bool(wit.get("permit")), bool(wit.get("plain")))
     case = {k: wit[k] for k in ("templates", "api", "mode", "args", "envkind", "subject")}
     keys = o1.execute(case)
     print(f"replay C10/O1: subject={wit['subject']} api={wit['api']} mode={wit['mode']} "
